@@ -96,6 +96,7 @@ class Spectrum:
         return self.divide(other)
 
     __rmul__ = __mul__
+    __radd__ = __add__
 
     @property
     def wave(self):
